@@ -214,6 +214,48 @@ func checkC13(e *Engine, r *Report) {
 		}
 	}
 
+	// ------------------------------------------------------------- G: the fallback covers every saved grant
+	// restoreAllocations first tries to re-instate the saved grants verbatim and otherwise re-allocates their containers.
+	// Both steps must work from the saved allocations it was given — the policy's own table has just been emptied and
+	// holds only what the failed re-instatement got to
+	if fn := r.Anchor(pkgTA, "policy.restoreAllocations"); fn != nil && len(fn.Params) == 2 {
+		savedP := ssa.Value(fn.Params[1])
+		fGrants := e.Field(pkgTA, "allocations", "grants")
+		realloc := e.Fn(pkgTA, "policy.reallocateResources")
+		reinstate := e.Fn(pkgTA, "policy.reinstateGrants")
+		okRe, nRe := true, 0
+		for _, c := range e.callsTo(fn, reinstate) {
+			nRe++
+			a := callArgs(c)
+			f, b := loadedField(a[len(a)-1])
+			if f != fGrants || !sameObject(b, savedP) {
+				okRe = false
+			}
+		}
+		r.Check("R9:restore-works-from-saved#reinstate", "R12 rollback", "restoreAllocations re-instates the grants of the saved allocations it was given", e.Pos(fn.Pos()), fn, okRe && nRe > 0, "", true)
+		okFb, nFb := true, 0
+		for _, c := range e.callsTo(fn, realloc) {
+			nFb++
+			a := callArgs(c)
+			for _, arg := range a[1:] {
+				if !originAll(arg, func(v ssa.Value) bool {
+					ex, ok := v.(*ssa.Extract)
+					if !ok {
+						return false
+					}
+					call, ok := ex.Tuple.(*ssa.Call)
+					if !ok || callObj(call.Common()) == nil || callObj(call.Common()).Name() != "getContainerPoolHints" {
+						return false
+					}
+					return sameObject(callArgs(call)[0], savedP)
+				}) {
+					okFb = false
+				}
+			}
+		}
+		r.Check("R9:restore-works-from-saved#fallback", "R12 rollback", "the fallback re-allocation takes its containers and pool hints from the saved allocations (every saved grant's container is re-allocated), not from the policy's partly refilled table", e.Pos(fn.Pos()), fn, okFb && nFb > 0, "", true)
+	}
+
 	// ------------------------------------------------------------- F: the states re-admission goes by are recorded
 	// Reconfiguration (and Synchronize) re-admit exactly the containers recorded as created or running: the handlers must
 	// record those states on their success paths
